@@ -241,7 +241,7 @@ Proof.
     call IHpa; [assumption | fuel |].
     destruct a0 as [v|]; [|xstep; fin'].
     xstep. use IHvl; [assumption | fuel].
-  - destruct (hd || default); xstep; fin'.
+  - destruct default; [xstep; fin'|]. destruct (hd || false); xstep; fin'.
 Qed.
 
 Lemma step_variants n : S_variants_loop n -> S_variants (S n).
@@ -311,8 +311,8 @@ Proof.
       repeat match goal with
              | |- Forall _ (elements (if ?c then _ else _)) => destruct c
              end; cbn [elements]; try exact Hst.
-      constructor; [|exact Hst]. cbn [ParserHelpers.ph_ok].
-      rewrite (Nat.add_comm p indent). subst s. splits; assumption.
+      all: constructor; [|exact Hst]; cbn [ParserHelpers.ph_ok];
+        rewrite (Nat.add_comm p indent); subst s; splits; assumption.
     + assert (p < q).
       { destruct (Nat.eq_dec indent 0) as [->|]; [|facts; lia].
         cbn [Nat.add] in Hs. subst s.
